@@ -118,13 +118,6 @@ def Ball.project2 (s : Ball K) (pt : V2 K) (solid : Bool) : PP2 K :=
   else if neq d2 0 then ⟨inside, ⟨0, s.r⟩⟩
   else ⟨inside, pt.smul (s.r / Num.sqrt d2)⟩
 
-/-- the pinned-tree behaviour (kept for the negated theorem / the NaN witness) -/
-def Ball.project3Pinned (s : Ball K) (pt : V3 K) (solid : Bool) : PP3 K :=
-  let d2 := pt.normSq
-  let inside := decide (d2 ≤ s.r * s.r)
-  if inside && solid then ⟨true, pt⟩
-  else ⟨inside, pt.smul (s.r / Num.sqrt d2)⟩
-
 /-- `Ball::distance_to_local_point` (own implementation, not the default) -/
 def Ball.distance3 (s : Ball K) (pt : V3 K) (solid : Bool) : K :=
   let dist := pt.norm - s.r
@@ -342,14 +335,14 @@ def Cylinder.project (s : Cylinder K) (pt : V3 K) (solid : Bool) : PP3 K :=
   let planar := d0.norm
   let dir : V2 K := if planar ≤ eps then ⟨1, 0⟩ else d0.sdiv planar
   let proj2d := dir.smul s.r
-  if decide (-s.hh ≤ pt.y) && decide (pt.y ≤ s.hh) && decide (planar ≤ s.r) then
+  if -s.hh ≤ pt.y ∧ pt.y ≤ s.hh ∧ planar ≤ s.r then
     if solid then ⟨true, pt⟩
     else
       let top := s.hh - pt.y
       let bot := pt.y - (-s.hh)
       let side := s.r - planar
-      if decide (top ≤ bot) && decide (top < side) then ⟨true, ⟨pt.x, s.hh, pt.z⟩⟩
-      else if decide (bot < top) && decide (bot < side) then ⟨true, ⟨pt.x, -s.hh, pt.z⟩⟩
+      if top ≤ bot ∧ top < side then ⟨true, ⟨pt.x, s.hh, pt.z⟩⟩
+      else if bot < top ∧ bot < side then ⟨true, ⟨pt.x, -s.hh, pt.z⟩⟩
       else ⟨true, ⟨proj2d.x, pt.y, proj2d.y⟩⟩
   else if s.hh < pt.y then
     if planar ≤ s.r then ⟨false, ⟨pt.x, s.hh, pt.z⟩⟩
@@ -365,14 +358,14 @@ def Cylinder.projectPinned (s : Cylinder K) (pt : V3 K) (solid : Bool) : PP3 K :
   let planar := d0.norm
   let dir : V2 K := if planar ≤ eps then ⟨1, 0⟩ else d0.sdiv planar
   let proj2d := dir.smul s.r
-  if decide (-s.hh ≤ pt.y) && decide (pt.y ≤ s.hh) && decide (planar ≤ s.r) then
+  if -s.hh ≤ pt.y ∧ pt.y ≤ s.hh ∧ planar ≤ s.r then
     if solid then ⟨true, pt⟩
     else
       let top := s.hh - pt.y
       let bot := pt.y - (-s.hh)
       let side := s.r - planar
-      if decide (top < bot) && decide (top < side) then ⟨true, ⟨pt.x, s.hh, pt.z⟩⟩
-      else if decide (bot < top) && decide (bot < side) then ⟨true, ⟨pt.x, -s.hh, pt.z⟩⟩
+      if top < bot ∧ top < side then ⟨true, ⟨pt.x, s.hh, pt.z⟩⟩
+      else if bot < top ∧ bot < side then ⟨true, ⟨pt.x, -s.hh, pt.z⟩⟩
       else ⟨true, ⟨proj2d.x, pt.y, proj2d.y⟩⟩
   else if s.hh < pt.y then
     if planar ≤ s.r then ⟨false, ⟨pt.x, s.hh, pt.z⟩⟩
@@ -389,7 +382,7 @@ def Cone.project (s : Cone K) (pt : V3 K) (solid : Bool) : PP3 K :=
   let planar := d0.norm
   let dir : V2 K := if planar ≤ eps then ⟨1, 0⟩ else d0.sdiv planar
   let onBasis : V3 K := ⟨pt.x, -s.hh, pt.z⟩
-  if decide (pt.y < -s.hh) && decide (planar ≤ s.r) then ⟨false, onBasis⟩
+  if pt.y < -s.hh ∧ planar ≤ s.r then ⟨false, onBasis⟩
   else
     let proj2d := dir.smul s.r
     let onCircle : V3 K := ⟨proj2d.x, -s.hh, proj2d.y⟩
@@ -398,8 +391,8 @@ def Cone.project (s : Cone K) (pt : V3 K) (solid : Bool) : PP3 K :=
     let segDir := onCircle.sub apex
     let proj := seg.project pt true
     let apexToBasis : V3 K := ⟨0, -two * s.hh, 0⟩
-    if decide (-s.hh ≤ pt.y) && decide (pt.y ≤ s.hh) &&
-        decide (0 ≤ (segDir.cross (pt.sub apex)).dot (segDir.cross apexToBasis)) then
+    if -s.hh ≤ pt.y ∧ pt.y ≤ s.hh ∧
+        0 ≤ (segDir.cross (pt.sub apex)).dot (segDir.cross apexToBasis) then
       if solid then ⟨true, pt⟩
       else if (onBasis.sub pt).normSq < (proj.pt.sub pt).normSq then ⟨true, onBasis⟩
       else ⟨true, proj.pt⟩
